@@ -17,7 +17,7 @@ def mk(harness, p, api, L, alpha="", mode=0, n=0, extra="", pre="", post="", str
     if extra:
         iid += "|x" + extra
     if pre or post:
-        iid += "|w%d+%d" % (len(pre), len(post))
+        iid += "|w%s+%s" % (pre.encode().hex() if len(pre) <= 6 else "%dx%s" % (len(pre), pre[:1].encode().hex()), post.encode().hex() if len(post) <= 6 else "%dx%s" % (len(post), post[:1].encode().hex()))
     d = {"id": iid, "Harness": harness, "Pattern": p, "API": api, "L": L, "Alpha": alpha, "Mode": mode, "N": n, "Extra": extra,
          "Pre": pre, "Post": post, "strategy": strategy}
     if reach:
